@@ -32,7 +32,12 @@ pub fn parse_op(s: &str) -> Option<Op> {
 pub const NCONN: usize = 3;
 
 /// run one history on the real relay; one record per op: (result, deliveries, msgs, heap)
-pub fn run_impl(rt: &tokio::runtime::Runtime, ops: &[Op]) -> Vec<(String, String, String, String)> {
+pub fn run_impl(rt: &tokio::runtime::Runtime, ops: &[Op]) -> Vec<(String, String, String, String)> { run_impl_mode(rt, ops, false) }
+
+/// `defer`: no connection reads its stream until the history is over (a client that is busy elsewhere); everything
+/// that arrives afterwards is reported with the LAST operation.  Reading is a client-side action the relay's contract
+/// does not depend on: the set of deliveries must be the same.
+pub fn run_impl_mode(rt: &tokio::runtime::Runtime, ops: &[Op], defer: bool) -> Vec<(String, String, String, String)> {
     rt.block_on(async {
         let relay = SimpleMessageRelay::new();
         let mut conns: Vec<MessageRelay> = (0..NCONN).map(|_| relay.connect()).collect();
@@ -40,7 +45,7 @@ pub fn run_impl(rt: &tokio::runtime::Runtime, ops: &[Op]) -> Vec<(String, String
         verif_clock::set_secs(0);
         let mut out = vec![];
         let mut dead = false;
-        for op in ops {
+        for (opi, op) in ops.iter().enumerate() {
             if dead { out.push(("skipped".into(), "-".into(), "-".into(), "-".into())); continue; }
             let res = match op {
                 Op::Tick(k) => { now += k; verif_clock::set_secs(now); "ok".to_string() }
@@ -50,8 +55,22 @@ pub fn run_impl(rt: &tokio::runtime::Runtime, ops: &[Op]) -> Vec<(String, String
             };
             for _ in 0..4 { tokio::task::yield_now().await; }
             let mut del = vec![];
-            for (c, conn) in conns.iter_mut().enumerate() {
-                while let Some(Some(m)) = conn.next().now_or_never() { del.push(format!("{c}:{}", hexw(&m))); }
+            if !defer {
+                for (c, conn) in conns.iter_mut().enumerate() {
+                    while let Some(Some(m)) = conn.next().now_or_never() { del.push(format!("{c}:{}", hexw(&m))); }
+                }
+            } else if opi + 1 == ops.len() {
+                // read until nothing has arrived for a few scheduler rounds (deliveries blocked on a full channel resume
+                // as soon as the reader makes room)
+                let mut quiet = 0;
+                while quiet < 4 {
+                    for _ in 0..8 { tokio::task::yield_now().await; }
+                    let before = del.len();
+                    for (c, conn) in conns.iter_mut().enumerate() {
+                        while let Some(Some(m)) = conn.next().now_or_never() { del.push(format!("{c}:{}", hexw(&m))); }
+                    }
+                    if del.len() == before { quiet += 1; } else { quiet = 0; }
+                }
             }
             // is the lock still usable for other callers?
             let dump = catch_unwind(AssertUnwindSafe(|| relay.verif_dump()));
@@ -117,13 +136,55 @@ pub fn one(drv: &mut Driver, rep: &mut Report, rt: &tokio::runtime::Runtime, str
     if idx == 0 && deliveries > 0 { rep.sample(json!({"stream": stream, "request": req, "impl": format!("{:?}", got), "model+spec": ans})); }
 }
 
+/// a history whose connections read nothing until it is over: the deliveries of the whole history (as a multiset)
+/// against the model's and the specification's; results and stored entries still per operation
+pub fn one_deferred(drv: &mut Driver, rep: &mut Report, rt: &tokio::runtime::Runtime, stream: &str, ops: &[Op], prop: &str) {
+    let req = format!("relay run {}", ops.iter().map(op_str).collect::<Vec<_>>().join(","));
+    let lines = vec!["c15 defer".to_string(), req.clone()];
+    let idx = rep.case(stream, Some(&format!("defer {req}")));
+    let got = run_impl_mode(rt, ops, true);
+    let ans = drv.ask(&req);
+    let recs: Vec<Vec<&str>> = ans.split(';').map(|r| r.split('|').collect()).collect();
+    if recs.len() != ops.len() || recs.iter().any(|r| r.len() != 6) {
+        rep.diverge(Failure { stream: stream.into(), index: idx, request: lines, impl_out: format!("{} records", got.len()), model_out: ans.chars().take(300).collect(), key: "relay:protocol".into(), what: "driver answer malformed".into() });
+        return;
+    }
+    let union = |col: usize| { let mut v: Vec<String> = recs.iter().filter(|r| r[col] != "-").flat_map(|r| r[col].split('+').map(|x| x.to_string())).collect(); v.sort(); v };
+    let (model_del, spec_del) = (union(1), union(4));
+    let mut impl_del: Vec<String> = got.last().map(|g| if g.1 == "-" { vec![] } else { g.1.split('+').map(|x| x.to_string()).collect() }).unwrap_or_default(); impl_del.sort();
+    rep.hist(&format!("deferred-reads:deliveries>={}", impl_del.len() / 50 * 50));
+    let short = |v: &Vec<String>| format!("{} deliveries; first missing/extra shown: {:?}", v.len(), v.iter().take(2).collect::<Vec<_>>());
+    for (k, (g, r)) in got.iter().zip(recs.iter()).enumerate() {
+        if g.0 == "panic" || g.2 == "poisoned" {
+            rep.pred_fail(Failure { stream: stream.into(), index: idx, request: lines.clone(), impl_out: format!("op {k}: {}|{}", g.0, g.2), model_out: "no panic".into(), key: "relay:panic-under-lock".into(), what: "a relay call panicked / left the relay lock unusable".into() });
+            return;
+        }
+        if prop == "C16" && g.2 != r[5] {
+            rep.pred_fail(Failure { stream: stream.into(), index: idx, request: lines.clone(), impl_out: format!("op {k}: {}", g.2), model_out: format!("op {k}: {}", r[5]), key: "relay:retention".into(), what: "stored entries differ from the specification's live entries (dropped early / kept after expiry)".into() });
+            return;
+        }
+        if g.0 != r[0] || g.2 != r[2] || g.3 != r[3] {
+            rep.diverge(Failure { stream: stream.into(), index: idx, request: lines.clone(), impl_out: format!("op {k}: {}|{}|{}", g.0, g.2, g.3), model_out: format!("op {k}: {}|{}|{}", r[0], r[2], r[3]), key: "relay:model".into(), what: "Lean model Relay.step and SimpleMessageRelay disagree".into() });
+            return;
+        }
+    }
+    if impl_del != spec_del {
+        let missing: Vec<&String> = spec_del.iter().filter(|x| !impl_del.contains(x)).take(2).collect();
+        rep.pred_fail(Failure { stream: stream.into(), index: idx, request: lines.clone(), impl_out: format!("{} (missing e.g. {missing:?})", short(&impl_del)), model_out: short(&spec_del), key: "relay:deliveries-deferred-reads".into(),
+            what: "a client that reads its stream only after the history does not receive exactly the specified deliveries".into() });
+    }
+    if impl_del != model_del {
+        rep.diverge(Failure { stream: stream.into(), index: idx, request: lines, impl_out: short(&impl_del), model_out: short(&model_del), key: "relay:model".into(), what: "Lean model Relay.step and SimpleMessageRelay disagree on the deliveries of a history read at its end".into() });
+    }
+}
+
 /// the id alphabet is deliberately made of NEAR ids: 0 and 1 differ only in the last byte, 2 differs from 0 only in
 /// byte 15 (the boundary between the two 16-byte halves), 3 only in the first byte; higher ids are unrelated.
 /// An id comparison or hash that drops part of the id makes two of them collide.
 fn id_of(k: u8) -> MsgId {
     let mut b = [0u8; 32];
     for (i, x) in b.iter_mut().enumerate() { *x = 0xA0 ^ (i as u8).wrapping_mul(7); }
-    match k { 0 => {} 1 => b[31] ^= 0x01, 2 => b[15] ^= 0x80, 3 => b[0] ^= 0x01, _ => { b = [k; 32]; b[0] = 0xA0 + k; } }
+    match k { 0 => {} 1 => b[31] ^= 0x01, 2 => b[15] ^= 0x80, 3 => b[0] ^= 0x01, _ => { b = [k; 32]; b[0] = 0xA0u8.wrapping_add(k); } }
     MsgId::from(b)
 }
 pub fn ask_frame(id: u8, ttl: u32) -> Vec<u8> { allocate_message(&id_of(id), ttl, 0, &[]) }
@@ -157,10 +218,13 @@ fn hdr_case(drv: &mut Driver, rep: &mut Report, id: [u8; 32], ttl: u32, flags: u
 
 pub fn replay(drv: &mut Driver, rep: &mut Report, lines: &[String], prop: &str) {
     let rt = tokio::runtime::Builder::new_current_thread().build().unwrap();
+    let mut defer = false;
     for l in lines {
+        if l == "c15 defer" { defer = true; continue; }
         if let Some(r) = l.strip_prefix("relay run ") {
             let ops: Vec<Op> = r.split(',').filter_map(parse_op).collect();
-            one(drv, rep, &rt, "replay", &ops, prop);
+            if defer { one_deferred(drv, rep, &rt, "replay", &ops, prop); } else { one(drv, rep, &rt, "replay", &ops, prop); }
+            defer = false;
         }
     }
 }
@@ -204,6 +268,31 @@ pub fn run(o: &Opts, drv: &mut Driver, rep: &mut Report, prop: &str) {
             _ => { let mut f = pub_frame(rng.gen_range(0..3), 1, 9); f.extend((0..rng.gen_range(0..20)).map(|_| rng.gen::<u8>())); Op::Frame(rng.gen_range(0..NCONN), f) }
         }).collect();
         one(drv, rep, &rt, "random", &ops, prop);
+    }
+    // clients that do not read while the history runs: backlogs of 1 … 230 undelivered frames on one connection
+    // (waiting path: asked before published; immediate path: published before asked; the same id asked repeatedly)
+    for (n, &k) in [1usize, 7, 99, 100, 101, 150, 230].iter().enumerate() {
+        let ids: Vec<u8> = (0..k).map(|i| 10 + i as u8).collect();
+        let mut ops: Vec<Op> = ids.iter().map(|&i| Op::Frame(0, ask_frame(i, 50))).collect();
+        ops.extend(ids.iter().map(|&i| if i % 5 == 0 { Op::Service(pub_frame(i, 50, 1 + i % 3)) } else { Op::Frame(1 + (i as usize % 2), pub_frame(i, 50, 1 + i % 3)) }));
+        one_deferred(drv, rep, &rt, "backlog-waiting-path", &ops, prop);
+        let mut ops: Vec<Op> = ids.iter().map(|&i| Op::Frame(2, pub_frame(i, 50, 2))).collect();
+        ops.extend(ids.iter().map(|&i| Op::Frame(n % 2, ask_frame(i, 50))));
+        one_deferred(drv, rep, &rt, "backlog-immediate-path", &ops, prop);
+        let mut ops: Vec<Op> = (0..k).map(|i| Op::Frame(i % 2, ask_frame(4, 50))).collect();
+        ops.push(Op::Tick(1)); ops.push(Op::Frame(2, pub_frame(4, 5, 3)));
+        one_deferred(drv, rep, &rt, "backlog-same-id", &ops, prop);
+    }
+    // random histories read only at their end
+    for _ in 0..(if thorough { 3000 } else { 200 }) * o.scale {
+        let len = rng.gen_range(3..40);
+        let ops: Vec<Op> = (0..len).map(|_| match rng.gen_range(0..100) {
+            0..=39 => Op::Frame(rng.gen_range(0..NCONN), ask_frame(rng.gen_range(0..5), [0, 1, 2, 5][rng.gen_range(0..4)])),
+            40..=74 => Op::Frame(rng.gen_range(0..NCONN), pub_frame(rng.gen_range(0..5), [0, 1, 2, 5][rng.gen_range(0..4)], rng.gen_range(1..4))),
+            75..=94 => Op::Tick(rng.gen_range(0..4)),
+            _ => Op::Service(pub_frame(rng.gen_range(0..3), rng.gen_range(0..3), rng.gen_range(1..4))),
+        }).collect();
+        one_deferred(drv, rep, &rt, "random-deferred-reads", &ops, prop);
     }
     // header codec
     for k in 0..(if thorough { 20000 } else { 600 }) {
